@@ -546,6 +546,16 @@ def fold_loop(c):
     acc = head.cells.pop(acc_cell, init)
     for k_ in [k_ for k_ in head.cells if k_.startswith(elem_prefix)]:
         del head.cells[k_]
+    if op == "fold" and isinstance(acc, Num) and isinstance(init, Num) and not fc.f and len(itv.len.t) == 1 and itv.len.c == 0 and elem is None:
+        # a fold with a capture-free closure is a function of the sequence and the initial value: evaluations over the
+        # same sequence agree, so the result gets a variable named after (closure, sequence, initial value)
+        from absint.interp import hash_str
+        lv = next(iter(itv.len.t))
+        nm = "fF%x_%s" % (hash_str("%s|%r" % (fc.tag, head.sys.reduce(init.e))) & 0xffffffff, lv)
+        cv = Lin.var(nm)
+        head.sys.add_eq(cv - acc.e)
+        c.it.purefun[nm] = {lv}
+        acc = Num(cv)
     if op == "fold":
         out.append((head, acc))
     else:
